@@ -11,7 +11,7 @@ import z3
 
 from .parser import split_top, strip_generics
 from .program import INTTY, PRIM_SIZE, base_type_name, strip_turbofish_tail
-from .values import (Struct, UNIT, Enum, Ref, IteRef, Ptr, Opaque, Dyn, IteDyn, FConst, FMono, FLin, is_float, ite, same,
+from .values import (Rec, Struct, UNIT, Enum, Ref, IteRef, Ptr, Opaque, Dyn, IteDyn, FConst, FMono, FLin, is_float, ite, same,
                      EngineError)
 
 MUL = z3.Function('MUL', z3.IntSort(), z3.IntSort(), z3.IntSort())
@@ -169,7 +169,10 @@ class Exec:
         self.havocs = []         # calls that were havocked (callee, caller)
         self.opaque_calls = list(opaque_calls)    # regexes of callees that may be havocked to an Opaque value
         self.mul_facts = set()
+        self.mul_apps = []        # (a, b, MUL(a,b)) for counterexample-guided refinement
         self.stats = {'forks': 0, 'merges': 0}
+        self.deref_hook = None   # (ex, st, Ptr) -> value: plain loads through pointers into a shared region
+        self.store_hook = None   # (ex, st, Ptr, path, value): plain stores through such pointers
         self.no_merge = []       # regexes of callee names whose return paths are kept separate
 
     # ------------------------------------------------------------------ helpers
@@ -217,6 +220,8 @@ class Exec:
                 return v.f[len(v.f) - i if step[2] else i]
             if step[0] == 'idx':
                 raise EngineError('dynamic index not resolved')
+        if isinstance(v, Rec):
+            raise EngineError('field access into an opaque record (data independence of the seqlock checks is violated)')
         if isinstance(v, Struct):
             if step >= len(v.f):
                 raise EngineError('field %d of %r' % (step, v))
@@ -240,6 +245,8 @@ class Exec:
         if isinstance(r, Opaque):
             return Opaque('*' + r.tag)
         if isinstance(r, Ptr):
+            if self.deref_hook is not None:
+                return self.deref_hook(self, st, r)
             raise EngineError('plain dereference of segment pointer %r (not an atomic/volatile/ptr::read/write call)' % (r,))
         raise EngineError('deref of %r' % (r,))
 
@@ -272,6 +279,8 @@ class Exec:
             return self._split_ref(ca, r.a) + self._split_ref(cb, r.b)
         if isinstance(r, Dyn):
             return self._split_ref(cond, r.val)
+        if isinstance(r, Ptr):
+            return [(cond, '@ptr', r, [])]
         raise EngineError('store/borrow through %r' % (r,))
 
     def load(self, st, fr, place):
@@ -288,6 +297,10 @@ class Exec:
 
     def store(self, st, fr, place, val):
         for cond, f, l, p in self.resolve_place(st, fr, place):
+            if f == '@ptr':
+                if self.store_hook is None or cond is not None:
+                    raise EngineError('plain store through segment pointer %r' % (l,))
+                self.store_hook(self, st, l, p, val); continue
             if f in self.const_mem:
                 raise EngineError('store into a constant')
             old = st.mem.get((f, l))
@@ -500,6 +513,7 @@ class Exec:
         key = (a.get_id(), b.get_id())
         if key not in self.mul_facts:
             self.mul_facts.add(key)
+            self.mul_apps.append((a, b, P))
             self.side.append(z3.Implies(z3.And(a >= 0, b >= 0), P >= 0))
             self.side.append(z3.Implies(z3.And(a <= 0, b <= 0), P >= 0))
             self.side.append(z3.Implies(z3.And(a >= 0, b <= 0), P <= 0))
@@ -559,6 +573,23 @@ class Exec:
         else:
             raise EngineError('float fn ' + kind)
         return FLin(cr)
+
+    def mul_refinement(self, m):
+        """incremental linearisation of the uninterpreted products at the point given by model m:
+        exact instances for the model's factor values + the four tangent planes (all true facts of integer
+        multiplication).  Used after a solver model failed to reproduce on the real code."""
+        out = []
+        for a, b, P in self.mul_apps:
+            a0 = m.eval(a, model_completion=True); b0 = m.eval(b, model_completion=True)
+            if not (z3.is_int_value(a0) and z3.is_int_value(b0)):
+                continue
+            x, y = a0.as_long(), b0.as_long()
+            out.append(z3.Implies(b == y, P == a * y))
+            out.append(z3.Implies(a == x, P == x * b))
+            plane = x * b + a * y - x * y
+            out.append(z3.Implies(z3.Or(z3.And(a <= x, b <= y), z3.And(a >= x, b >= y)), P >= plane))
+            out.append(z3.Implies(z3.Or(z3.And(a <= x, b >= y), z3.And(a >= x, b <= y)), P <= plane))
+        return out
 
     # ------------------------------------------------------------------ rvalues
     BIN = {'Add', 'Sub', 'Mul', 'Div', 'Rem', 'Eq', 'Ne', 'Lt', 'Le', 'Gt', 'Ge', 'BitAnd', 'BitOr', 'BitXor', 'Shl', 'Shr',
